@@ -51,6 +51,14 @@ int main(int argc, char** argv) {
         gen::Spend S = gen::make_spend(type, sh, 1, 1, false);
         emit(type + " long script", S.fund, S.tx, F_STANDARD);
     }
+    // multi-signature spends whose signatures use different hash types, in both orders, in a transaction with several inputs (no precomputed
+    // digests then): each check derives its own digest
+    for (std::string type : {"p2wsh", "p2sh-multisig", "p2sh-p2wsh"}) for (auto hp : std::vector<std::pair<int, int>>{{1, 0x81}, {0x81, 1}, {1, 3}, {0x83, 2}}) {
+        gen::Shape sh; sh.nin = 2; sh.pos = 1; sh.fund_vout = 1; sh.nout = 2; sh.ht2 = hp.second;
+        gen::Spend S = gen::make_spend(type, sh, uint8_t(hp.first), 1, false);
+        char nm[64]; snprintf(nm, 64, " signatures with hash types %02x,%02x", hp.first, hp.second);
+        emit(type + nm, S.fund, S.tx, F_STANDARD);
+    }
     // bare legacy outputs with hand-made scriptSig / scriptPubKey pairs: sections of zero, one and several operations
     {
         struct B { const char* name; const char* sig; const char* spk; };
